@@ -148,6 +148,14 @@ class Run:
         cls = type(f'W{idx}', (param.Parameterized,), ns)
         self.cls = cls
         self.o = cls() if level == 'instance' else cls
+        self.inheriting_holder = False
+        if level == 'class' and rng.random() < 0.4:
+            # the holder is a subclass that only inherits the Parameters: its first assignment gives it a Parameter of its own
+            # (no Parameter-attribute events in these runs, as for shared Parameter objects above: until then the Parameter
+            #  objects reached through the subclass are those of the parent class, and so are their attributes)
+            self.o = type(f'W{idx}Sub', (cls,), {})
+            self.inheriting_holder = True
+            self.feats = feats = set(feats) - {'slots'}
         self.model = {}
         for n in NAMES:
             self.model[(n, 'value')] = getattr(self.o, n) if n in self.const else None
